@@ -1,10 +1,197 @@
-import MaestroVerif.Model.Dag
+import MaestroVerif.Lemmas.DagEdge
+import MaestroVerif.Lemmas.DagTopo
+import MaestroVerif.Lemmas.DagWalk
 
-/-! # C14 — The workflow graph stays acyclic and its orderings are exact -/
+/-!
+# C14 — The workflow graph stays acyclic and its orderings are exact
+
+Property theorems only (helper lemmas live in `Lemmas/Dag*.lean`).  The model
+is `Model/Dag.lean`; it is tied to `maestrowf/datastructures/dag.py` by the
+operation-sequence correspondence of `harness/props/c14.py`.
+
+All statements quantify over *every* sequence of `add_node` / `add_edge` /
+`remove_edge` operations (valid, duplicate, dangling, self and cycle-creating)
+and every resulting graph; there is no bound on sizes.
+-/
 namespace MaestroVerif.C14
-open MaestroVerif.Dag
+open MaestroVerif.Dag Relation
 
-theorem C14_selfedge_unchanged (g : Dag) (s : Nat) : (addEdge g s s).1 = g := by
+/-- Every graph reachable by any operation sequence is well formed. -/
+theorem C14_wf_invariant (ops : List Op) : WF (run empty ops) := by
+  suffices h : ∀ g, WF g → WF (run g ops) from h _ wf_empty
+  induction ops with
+  | nil => intro g h; exact h
+  | cons op ops ih =>
+    intro g h
+    simp only [run, List.foldl_cons]
+    apply ih
+    cases op with
+    | addNode n => exact wf_addNode h n
+    | addEdge s d => exact wf_addEdge h s d
+    | removeEdge s d => exact wf_removeEdge h s d
+
+/-- **The graph never contains a cycle**, whatever operations are applied. -/
+theorem C14_acyclic_invariant (ops : List Op) : Acyclic (run empty ops) := by
+  suffices h : ∀ g, WF g → Acyclic g → WF (run g ops) ∧ Acyclic (run g ops) from
+    (h _ wf_empty (by intro a hp; obtain ⟨c, e, _⟩ := TransGen.head'_iff.mp hp; simp [Edge, empty] at e)).2
+  induction ops with
+  | nil => intro g h1 h2; exact ⟨h1, h2⟩
+  | cons op ops ih =>
+    intro g h1 h2
+    simp only [run, List.foldl_cons]
+    cases op with
+    | addNode n => exact ih _ (wf_addNode h1 n) (acyclic_addNode h1 h2 n)
+    | addEdge s d => exact ih _ (wf_addEdge h1 s d) (acyclic_addEdge h1 h2 s d)
+    | removeEdge s d => exact ih _ (wf_removeEdge h1 s d) (acyclic_removeEdge h2 s d)
+
+/-- **A refused edge leaves the graph unchanged** (any raising outcome,
+including the cycle refusal and the missing-source `ValueError`). -/
+theorem C14_refused_unchanged (g : Dag) (wf : WF g) (s d : Nat)
+    (h : (addEdge g s d).2 ≠ .ok) : (addEdge g s d).1 = g := by
+  rcases addEdge_cases g s d with h' | h' | ⟨_, hs, hd, hnd, h' | h' | h'⟩
+  · rw [h']
+  · rw [h']
+  · exact absurd h'.1 (detectCycle_fuel _ (wf_withEdge wf hs hd hnd))
+  · rw [h'.2] at h; exact absurd rfl h
+  · rw [h'.2, restore_eq hnd]
+
+/-- A self edge is refused and leaves the graph unchanged. -/
+theorem C14_self_edge_refused (g : Dag) (s : Nat) : (addEdge g s s).1 = g := by
   simp [addEdge]
+
+/-- **Only cycle-creating edges are refused as cycles**: if `add_edge(s, d)`
+raises the cycle exception then `s` was already reachable from `d`. -/
+theorem C14_no_valid_edge_refused (g : Dag) (ha : Acyclic g) (s d : Nat)
+    (h : (addEdge g s d).2 = .cycleError) : Reach g d s := by
+  rcases addEdge_cases g s d with h' | h' | ⟨_, _, _, _, h' | h' | h'⟩
+  · rw [h'] at h; cases h
+  · rw [h'] at h; cases h
+  · rw [h'.2] at h; cases h
+  · rw [h'.2] at h; cases h
+  · have hc := detectCycle_sound _ h'.1
+    apply Classical.byContradiction
+    intro hn
+    apply hc
+    intro a hp
+    rcases path_withEdge hp with h1 | ⟨h1, h2⟩
+    · exact ha a h1
+    · exact hn (h2.trans h1)
+
+/-- **Every cycle-creating edge is refused**: if `s` is reachable from `d` the
+edge `(s, d)` between existing nodes is rejected with the cycle exception and
+the graph stays as it was. -/
+theorem C14_cycle_edge_refused (g : Dag) (wf : WF g) (s d : Nat) (hsd : s ≠ d)
+    (hs : s ∈ g.nodes) (hd : d ∈ g.nodes) (hnd : d ∉ g.adj s) (hr : Reach g d s) :
+    addEdge g s d = (g, .cycleError) := by
+  have hwf := wf_withEdge wf hs hd hnd
+  have hcyc : ¬ Acyclic (withEdge g s d) := by
+    intro ha
+    apply ha s
+    apply TransGen.head'_iff.mpr
+    refine ⟨d, edge_withEdge.mpr (Or.inr ⟨rfl, rfl⟩), ?_⟩
+    exact ReflTransGen.mono (fun a b e => edge_withEdge.mpr (Or.inl e)) d s hr
+  rcases addEdge_cases g s d with h' | h' | ⟨_, _, _, _, h' | h' | h'⟩
+  · exfalso
+    unfold addEdge at h'
+    simp [hsd, hs, hd, hnd] at h'
+    split at h' <;> simp at h'
+    rename_i hdc
+    exact hcyc (detectCycle_complete _ hwf (by simpa [withEdge] using hdc))
+  · exfalso
+    unfold addEdge at h'
+    simp [hsd, hs, hd, hnd] at h'
+    split at h' <;> simp at h'
+  · exact absurd h'.1 (detectCycle_fuel _ hwf)
+  · exact absurd (detectCycle_complete _ hwf h'.1) hcyc
+  · rw [h'.2, restore_eq hnd]
+
+/-- **A valid edge is added**: between existing distinct nodes, when it closes
+no cycle, `add_edge` returns normally and the edge is in the graph. -/
+theorem C14_valid_edge_added (g : Dag) (wf : WF g) (ha : Acyclic g) (s d : Nat) (hsd : s ≠ d)
+    (hs : s ∈ g.nodes) (hd : d ∈ g.nodes) (hr : ¬ Reach g d s) :
+    (addEdge g s d).2 = .ok ∧ Edge (addEdge g s d).1 s d := by
+  by_cases hnd : d ∈ g.adj s
+  · simp [addEdge, hsd, hs, hd, hnd, Edge]
+  · rcases addEdge_cases g s d with h' | h' | ⟨_, _, _, _, h' | h' | h'⟩
+    · exfalso
+      unfold addEdge at h'
+      simp [hsd, hs, hd, hnd] at h'
+      split at h' <;> simp at h'
+      have := congrArg (fun g => g.adj s) h'
+      simp [setAdj] at this
+    · exfalso
+      unfold addEdge at h'
+      simp [hsd, hs, hd, hnd] at h'
+      split at h' <;> simp at h'
+    · exact absurd h'.1 (detectCycle_fuel _ (wf_withEdge wf hs hd hnd))
+    · rw [h'.2]; exact ⟨rfl, edge_withEdge.mpr (Or.inr ⟨rfl, rfl⟩)⟩
+    · exfalso
+      have := C14_no_valid_edge_refused g ha s d (by rw [h'.2])
+      exact hr this
+
+/-- `detect_cycle` is exact on well-formed graphs. -/
+theorem C14_detect_exact (g : Dag) (wf : WF g) :
+    (detectCycle g = some false ↔ Acyclic g) ∧ (detectCycle g = some true ↔ ¬ Acyclic g) := by
+  have hf := detectCycle_fuel g wf
+  cases h : detectCycle g with
+  | none => exact absurd h hf
+  | some b =>
+    cases b with
+    | false =>
+      have := detectCycle_complete g wf h
+      simp [this]
+    | true =>
+      have := detectCycle_sound g h
+      simp [this]
+
+/-- **Topological ordering places every step after all of its dependencies**
+and lists every node exactly once. -/
+theorem C14_toposort (g : Dag) (wf : WF g) (ha : Acyclic g) :
+    ∃ l, topoSort g = some l ∧ l.Perm g.nodes ∧
+      ∀ u v, Edge g u v → l.idxOf u < l.idxOf v := by
+  cases h : topoSort g with
+  | none => exact absurd h (topoSort_fuel g wf)
+  | some l =>
+    obtain ⟨h1, h2, h3⟩ := topoSort_spec g wf ha h
+    refine ⟨l, rfl, (List.perm_ext_iff_of_nodup h1 wf.nodup).mpr h2, ?_⟩
+    intro u v e
+    exact (topoOK_idx g h1 h3 ((h2 u).mpr (wf.src u v e)) e).1
+
+/-- **The dependents computed by `bfs_subtree` are exactly the reachable nodes,
+each listed once.** -/
+theorem C14_bfs_exact (g : Dag) (wf : WF g) (s : Nat) :
+    ∃ l, bfs g s = some l ∧ l.Nodup ∧ ∀ x, x ∈ l ↔ Reach g s x := by
+  cases h : bfs g s with
+  | none => exact absurd h (bfs_fuel g wf s)
+  | some l => exact ⟨l, rfl, bfs_spec g s h⟩
+
+/-- The same for `dfs_subtree` (after the visited-set repair). -/
+theorem C14_dfs_exact (g : Dag) (wf : WF g) (s : Nat) :
+    ∃ l, dfs g s = some l ∧ l.Nodup ∧ ∀ x, x ∈ l ↔ Reach g s x := by
+  cases h : dfs g s with
+  | none => exact absurd h (dfs_fuel g wf s)
+  | some l => exact ⟨l, rfl, dfs_spec g s h⟩
+
+/-- The recursion depth `|V| + 1` passed by the entry points never runs out
+(termination of the three recursive walks and of the BFS loop). -/
+theorem C14_fuel_suffices (g : Dag) (wf : WF g) (s : Nat) :
+    detectCycle g ≠ none ∧ topoSort g ≠ none ∧ bfs g s ≠ none ∧ dfs g s ≠ none :=
+  ⟨detectCycle_fuel g wf, topoSort_fuel g wf, bfs_fuel g wf s, dfs_fuel g wf s⟩
+
+/-! ### non-vacuity: a concrete diamond built by operations, on which the
+hypotheses hold and the functions compute what the theorems say -/
+
+def diamondOps : List Op :=
+  [.addNode 0, .addNode 1, .addNode 2, .addNode 3, .addEdge 0 1, .addEdge 0 2,
+   .addEdge 1 3, .addEdge 2 3, .addEdge 3 0, .addEdge 1 1, .addEdge 7 1]
+
+example : (run empty diamondOps).nodes = [0, 1, 2, 3] := by decide
+example : (run empty diamondOps).adj 0 = [1, 2] ∧ (run empty diamondOps).adj 3 = [] := by decide
+example : (addEdge (run empty diamondOps) 3 0).2 = .cycleError := by decide
+example : bfs (run empty diamondOps) 0 = some [0, 1, 2, 3] := by decide
+example : dfs (run empty diamondOps) 0 = some [0, 1, 3, 2] := by decide
+example : topoSort (run empty diamondOps) = some [0, 2, 1, 3] := by decide
+example : WF (run empty diamondOps) ∧ Acyclic (run empty diamondOps) :=
+  ⟨C14_wf_invariant _, C14_acyclic_invariant _⟩
 
 end MaestroVerif.C14
